@@ -153,7 +153,9 @@ def judge05 (input impl : String) : String × String × String :=
     let words := tail.splitOn " "
     let scanClean := words.contains "scan=clean"
     let allFail := words.contains "wrongmaster=allfail"
+    let lockOk := words.contains "lock=ok"
     if !scanClean then (modelCol, "KEY-MATERIAL-FOUND " ++ tail, "")
+    else if !lockOk then (modelCol, "SECRET-LOCK-REUSES-ITS-KEY-STREAM " ++ tail, "")
     else if !allFail then (modelCol, "WRONG-MASTER-KEY-YIELDS-A-KEY " ++ tail, "")
     else (modelCol, "=", "")
   | _, _ => ("bad", "bad", "")
